@@ -4,7 +4,7 @@ from symbolic scalars, for a catalogue of Hail types to depth 2.
 Symbolic scalars of one condition (a pool; positions of a value draw from it in order and wrap around, so distant
 positions may share a variable): i0,i1 64-bit ints, j0,j1 32-bit ints, p0 locus position, f0,f1 floats (CrossHair
 reals) with g0,g1 selecting real / NaN / +inf / -inf, s0,s1 string choice (3 fixed strings: they pass through the
-conversion untouched and only matter as dict keys / set members), c0 call shape (8 fixed calls covering ploidy 0..2, phasing, allele order; str()/int() of a
+conversion untouched and only matter as dict keys / set members), c0 call shape (10 fixed calls covering ploidy 0..2, phasing, allele order; str()/int() of a
 symbolic integer is intractable for CrossHair; a0,a1 unused), q0 the permutation of struct VALUE fields relative
 to the type, b0,b1 booleans (phasing, contig,
 interval bounds), m0..m2 missingness flags, n0,n1 collection lengths 0..2 (n1 <= 1 in the quick tier).
@@ -50,7 +50,8 @@ except KeyError:
     RG = ReferenceGenome('C32rg', ['1', 'X'], {'1': 1000, 'X': 500})
 
 STRS = ['', 'nan', 'é\n"b c']
-CALLS = [((), False), ((), True), ((0,), False), ((999,), True), ((0, 1), False), ((1, 0), True), ((999, 999), False), ((2, 10), True)]
+CALLS = [((), False), ((), True), ((0,), False), ((999,), True), ((0, 1), False), ((1, 0), True), ((999, 999), False), ((2, 10), True),
+         ((999,), False), ((10,), True)]
 ALLELES = [0, 1, 999]     # str()/int() of symbolic integers is intractable for CrossHair: alleles are chosen, not symbolic
 NDARRAYS = {
     'int32': [np.array([], dtype=np.int32), np.array([1, -2, 3], dtype=np.int32),
@@ -108,7 +109,7 @@ def mk(t, P, allow_missing=True):
     if t == T.tbool:
         return P.nx('b')
     if t == T.tcall:
-        # one symbolic selector for all call positions of a value (k-th position is rotated by 3k): 8 shapes covering every
+        # one symbolic selector for all call positions of a value (k-th position is rotated by 3k): 10 shapes covering every
         # ploidy / phasing and allele order; per-position independent selectors made call composites explode (3888 paths)
         k = P.c['c']
         al, ph = CALLS[(P.nx('c') + 3 * k) % len(CALLS)]
@@ -258,8 +259,8 @@ def catalogue(tier):
     if tier == 'quick':
         out = list(prims)
         out += [T.tarray(T.tfloat64), T.tarray(T.tcall), T.tset(T.tstr), T.tdict(T.tstr, T.tint32), T.tdict(T.tint32, T.tfloat64),
-                T.tstruct(a=T.tfloat64, b=T.tcall), T.ttuple(L, T.tbool, T.tstr), T.tinterval(T.tint32), T.tinterval(L),
-                nd[1], nd[8], d2[1], T.tstruct(a=T.tarray(T.tint64), b=T.tstruct(c=T.tcall))]
+                T.tstruct(a=T.tint32, b=T.tcall), T.ttuple(L, T.tbool, T.tstr), T.tinterval(T.tint32), T.tinterval(L),
+                nd[1], nd[8], d2[1], T.tstruct(a=T.tarray(T.tint64), b=T.tstruct(c=T.tbool, d=T.tint32))]
         return out
     out = list(prims)
     out += [T.tarray(p) for p in prims]
@@ -281,7 +282,7 @@ SIG = ('i0: int, i1: int, j0: int, j1: int, p0: int, f0: float, f1: float, g0: i
        'a0: int, a1: int, q0: int, b0: bool, b1: bool, m0: bool, m1: bool, m2: bool, n0: int, n1: int')
 PRE = '''    pre: -2**63 <= i0 < 2**63 and -2**63 <= i1 < 2**63 and 1 <= p0 <= 500
     pre: -2**31 <= j0 < 2**31 and -2**31 <= j1 < 2**31
-    pre: 0 <= g0 < 4 and 0 <= g1 < 4 and 0 <= s0 < 3 and 0 <= s1 < 3 and 0 <= c0 < 8 and 0 <= a0 < 3 and 0 <= a1 < 3 and 0 <= q0 < 6
+    pre: 0 <= g0 < 4 and 0 <= g1 < 4 and 0 <= s0 < 3 and 0 <= s1 < 3 and 0 <= c0 < 10 and 0 <= a0 < 3 and 0 <= a1 < 3 and 0 <= q0 < 6
     pre: 0 <= n0 <= 2 and 0 <= n1 <= {N1MAX}'''
 ARGS = '[i0, i1, j0, j1, p0], [f0, f1], [g0, g1, s0, s1, c0, a0, a1, q0], [b0, b1], [m0, m1, m2], [n0, n1]'
 ARGN = ['i0', 'i1', 'j0', 'j1', 'p0', 'f0', 'f1', 'g0', 'g1', 's0', 's1', 'c0', 'a0', 'a1', 'q0', 'b0', 'b1', 'm0', 'm1', 'm2', 'n0', 'n1']
